@@ -1,9 +1,11 @@
 (* C10 at the level of the SOURCE (method: Props/C11Src.v): the MiniPy semantics of the regenerated terms of
    helper.encode_base58 and encode_base58_checksum equals the model, for every byte string; with the model-level
-   theorems of Props/C10.v this gives the leading-zero rule and the decode-back statement for what the SOURCE emits.
+   theorems of Props/C10.v this gives the leading-zero rule and the decode-back statement for what the SOURCE emits; the
+   same for decode_base58 (incl. the hex()/bytes.fromhex detour, Proofs/PyHex.v), decode_base58_checksum and b58decode_addr:
+   round trip through the source of both directions, rejection of foreign characters, checksum soundness.
    hash256 is external (`ext`), assumed to be double SHA-256 for a sha256 returning well-formed bytes.
    The inner `while num > 0` gets fuel > 2 * (number of bytes): 58^2 > 256. *)
-From BHW Require Import Lib.Base Lib.ListAux Model.Helper Proofs.Base58 Spec.Base58 Py.Interp Py.Tactics Proofs.PyHelper.
+From BHW Require Import Lib.Base Lib.ListAux Model.Helper Proofs.Base58 Spec.Base58 Py.Interp Py.Tactics Proofs.PyHelper Proofs.PyBase58Dec.
 From BHWGen Require Import Consts PyAst.
 Open Scope string_scope.
 Open Scope Z_scope.
@@ -49,12 +51,66 @@ Theorem C10_source_checksum_encode_is_model : forall sha256 ext fuel data,
             sem_helper__encode_base58_checksum ext fuel [VBytes data] = Val (VStr s).
 Proof. intros sha256 ext fuel data H1 H2. exact (encode_base58_checksum_sem sha256 H1 ext H2 fuel data). Qed.
 
+(* ---- the decoders ---- *)
+Theorem C10_source_decode_is_model : forall ext fuel s,
+  sem_helper__decode_base58 ext fuel [VStr s]
+  = match decode_base58 A s with Ok b => Val (VBytes b) | Err => Exc ValueError end.
+Proof. exact decode_base58_sem. Qed.
+
+(* full round trip through the SOURCE of both functions: for every non-empty byte string the source of decode_base58
+   applied to what the source of encode_base58 returns gives the bytes back *)
+Theorem C10_source_roundtrip : forall ext fuel bs,
+  wf_bytes bs -> bs <> [] -> (2 * List.length bs < fuel)%nat ->
+  exists s, sem_helper__encode_base58 ext fuel [VBytes bs] = Val (VStr s) /\
+            sem_helper__decode_base58 ext fuel [VStr s] = Val (VBytes bs).
+Proof.
+  intros ext fuel bs Hwf Hne Hf.
+  destruct (C10_source_encode_decodes_back ext fuel bs Hwf Hne Hf) as (s & E & D).
+  exists s. split; [exact E|]. rewrite decode_base58_sem, D. reflexivity.
+Qed.
+
+(* a character outside the alphabet: the source raises ValueError *)
+Theorem C10_source_bad_char : forall ext fuel s c,
+  In c s -> ~ In c A -> sem_helper__decode_base58 ext fuel [VStr s] = Exc ValueError.
+Proof.
+  intros ext fuel s c H1 H2. rewrite decode_base58_sem, (bad_char_rejected A s c H1 H2). reflexivity.
+Qed.
+
+(* the checksummed decoder (hash256 external): the source returns p exactly when the decoded bytes are p followed by
+   the first four bytes of the double SHA-256 of p, and raises ValueError otherwise *)
+Theorem C10_source_checksum_sound : forall sha256 ext fuel s,
+  (forall x, List.length (sha256 x) = 32%nat) ->
+  ext "helper.hash256" = Some (fun args => match args with [VBytes b] => Val (VBytes (hash256 sha256 b)) | _ => Exc TypeError end) ->
+  (forall p, sem_helper__decode_base58_checksum ext fuel [VStr s] = Val (VBytes p) <->
+             decode_base58 A s = Ok (p ++ checksum4 sha256 p)) /\
+  ((forall p, decode_base58 A s <> Ok (p ++ checksum4 sha256 p)) ->
+   sem_helper__decode_base58_checksum ext fuel [VStr s] = Exc ValueError).
+Proof.
+  intros sha256 ext fuel s Hlen Hext. rewrite (decode_base58_checksum_sem sha256 ext Hext).
+  split.
+  - intros p. rewrite <- (checksum_sound A sha256 Hlen s p).
+    destruct (decode_base58_checksum A sha256 s) as [b|]; split; intros H; try discriminate; inversion H; subst; reflexivity.
+  - intros H. destruct (decode_base58_checksum A sha256 s) as [b|] eqn:E; [|reflexivity].
+    exfalso. apply (H b). apply (checksum_sound A sha256 Hlen). exact E.
+Qed.
+
+Theorem C10_source_b58decode_addr_is_model : forall sha256 ext fuel s,
+  ext "helper.hash256" = Some (fun args => match args with [VBytes b] => Val (VBytes (hash256 sha256 b)) | _ => Exc TypeError end) ->
+  sem_helper__b58decode_addr ext fuel [VStr s]
+  = match b58decode_addr A sha256 s with Ok b => Val (VBytes b) | Err => Exc ValueError end.
+Proof. intros sha256 ext fuel s H. exact (b58decode_addr_sem sha256 ext H fuel s). Qed.
+
 Theorem C10_source_translated :
-  forallb (fun q => existsb (String.eqb q) translated) ["helper.encode_base58"; "helper.encode_base58_checksum"] = true.
+  forallb (fun q => existsb (String.eqb q) translated) ["helper.encode_base58"; "helper.encode_base58_checksum"; "helper.decode_base58"; "helper.decode_base58_checksum"; "helper.b58decode_addr"] = true.
 Proof. reflexivity. Qed.
 
 Print Assumptions C10_source_encode_is_model.
 Print Assumptions C10_source_encode_decodes_back.
 Print Assumptions C10_source_leading_zeros.
 Print Assumptions C10_source_checksum_encode_is_model.
+Print Assumptions C10_source_decode_is_model.
+Print Assumptions C10_source_roundtrip.
+Print Assumptions C10_source_bad_char.
+Print Assumptions C10_source_checksum_sound.
+Print Assumptions C10_source_b58decode_addr_is_model.
 Print Assumptions C10_source_translated.
